@@ -82,11 +82,13 @@ def _cfg_of(m) -> dict:
                     ln=bool(m.layer_norm), oln=bool(m.output_layernorm), noisy=bool(m.noisy))
     if k == "cnn":
         sh = list(m.input_shape)
-        assert sh[-1] == sh[-2], "square images only"
         depth = int(m.sample_input.shape[2]) if m.block_type == "Conv3d" else 0
-        return dict(kind="cnn", name=m.name, inc=int(sh[0]), inh=int(sh[-1]), depth=depth, no=int(m.num_outputs),
-                    minl=int(m.min_hidden_layers), maxl=int(m.max_hidden_layers), minc=int(m.min_channel_size),
-                    maxc=int(m.max_channel_size), deltas=CHAN_DELTAS, ln=bool(m.layer_norm), nolayer=False)
+        d = dict(kind="cnn", name=m.name, inc=int(sh[0]), inh=int(sh[-2]), depth=depth, no=int(m.num_outputs),
+                 minl=int(m.min_hidden_layers), maxl=int(m.max_hidden_layers), minc=int(m.min_channel_size),
+                 maxc=int(m.max_channel_size), deltas=CHAN_DELTAS, ln=bool(m.layer_norm), nolayer=False)
+        if int(sh[-1]) != int(sh[-2]):
+            d["inw"] = int(sh[-1])              # rectangular image (the field is absent for square ones)
+        return d
     if k == "lstm":
         return dict(kind="lstm", name=m.name, ni=int(m.input_size), no=int(m.num_outputs), minl=int(m.min_layers), maxl=int(m.max_layers),
                     minn=int(m.min_hidden_size), maxn=int(m.max_hidden_size), deltas=NODE_DELTAS)
@@ -171,7 +173,7 @@ def _leaf_kwargs(c: dict, a: dict) -> dict:
         kw = dict(channel_size=list(a["ch"]), kernel_size=list(a["ks"]), stride_size=list(a["st"]), min_hidden_layers=c["minl"],
                   max_hidden_layers=c["maxl"], min_channel_size=c["minc"], max_channel_size=c["maxc"], layer_norm=c["ln"])
         if c["depth"]:
-            kw.update(block_type="Conv3d", sample_input=torch.zeros(1, c["inc"], c["depth"], c["inh"], c["inh"]))
+            kw.update(block_type="Conv3d", sample_input=torch.zeros(1, c["inc"], c["depth"], c["inh"], c.get("inw", c["inh"])))
         return kw
     if k == "lstm":
         return dict(hidden_size=a["h"], num_layers=a["l"], min_hidden_size=c["minn"], max_hidden_size=c["maxn"], min_layers=c["minl"], max_layers=c["maxl"])
@@ -191,7 +193,7 @@ def _multi_space(c: dict):
     for s in c["subs"]:
         sc = s["cfg"]
         if sc["kind"] == "cnn":
-            d[s["key"]] = spaces.Box(0.0, 1.0, (sc["inc"], sc["inh"], sc["inh"]), dtype=np.float32)
+            d[s["key"]] = spaces.Box(0.0, 1.0, (sc["inc"], sc["inh"], sc.get("inw", sc["inh"])), dtype=np.float32)
         elif sc["kind"] == "mlp":
             nvec = sc["ni"]
         elif sc["kind"] == "lstm":
@@ -217,13 +219,13 @@ def build(c: dict, a: dict):
     if k == "mlp":
         return M["mlp"](num_inputs=c["ni"], num_outputs=c["no"], output_layernorm=c["oln"], name=c["name"], **_leaf_kwargs(c, a))
     if k == "cnn":
-        return M["cnn"](input_shape=[c["inc"], c["inh"], c["inh"]], num_outputs=c["no"], name=c["name"], **_leaf_kwargs(c, a))
+        return M["cnn"](input_shape=[c["inc"], c["inh"], c.get("inw", c["inh"])], num_outputs=c["no"], name=c["name"], **_leaf_kwargs(c, a))
     if k == "lstm":
         return M["lstm"](input_size=c["ni"], num_outputs=c["no"], name=c["name"], **_leaf_kwargs(c, a))
     if k == "simba":
         return M["simba"](num_inputs=c["ni"], num_outputs=c["no"], name=c["name"], **_leaf_kwargs(c, a))
     if k == "resnet":
-        return M["resnet"](input_shape=[c["inc"], c["inh"], c["inh"]], num_outputs=c["no"], name=c["name"], **_leaf_kwargs(c, a))
+        return M["resnet"](input_shape=[c["inc"], c["inh"], c.get("inw", c["inh"])], num_outputs=c["no"], name=c["name"], **_leaf_kwargs(c, a))
     if k == "multi":
         return M["multi"](observation_space=_multi_space(c), num_outputs=c["no"], **_multi_kwargs(c, a))
     # network: the class is chosen from the head of the configuration
@@ -234,7 +236,7 @@ def build(c: dict, a: dict):
         obs = _multi_space(e)
         enc_cfg = _multi_kwargs(e, a["enc"])
     elif e["kind"] == "cnn":
-        obs = spaces.Box(0.0, 1.0, (e["inc"], e["inh"], e["inh"]), dtype=np.float32)
+        obs = spaces.Box(0.0, 1.0, (e["inc"], e["inh"], e.get("inw", e["inh"])), dtype=np.float32)
         enc_cfg = _leaf_kwargs(e, a["enc"])
     else:
         obs = spaces.Box(-1.0, 1.0, (e["ni"],), dtype=np.float32)
@@ -281,6 +283,10 @@ def make(desc: dict):
         return M["mlp"](num_inputs=6, num_outputs=4, hidden_size=[64, 64], **desc.get("kw", {}))
     if w == "cnn":
         return M["cnn"](input_shape=[3, 24, 24], num_outputs=4, channel_size=[32], kernel_size=[3], stride_size=[1], max_channel_size=64,
+                        **desc.get("kw", {}))
+    if w == "cnnrect":          # tall and narrow / wide images: kernel limits follow the SMALLER side of every feature map
+        h, wd = desc.get("hw", (48, 8))
+        return M["cnn"](input_shape=[3, h, wd], num_outputs=4, channel_size=[32, 32], kernel_size=[3, 1], stride_size=[1, 1], max_channel_size=64,
                         **desc.get("kw", {}))
     if w == "cnn3d":
         return M["cnn"](input_shape=[3, 24, 24], num_outputs=4, channel_size=[32], kernel_size=[3], stride_size=[1], max_channel_size=64,
@@ -349,8 +355,8 @@ def batch_for(m, c: dict, B: int, seed: int):
         return (torch.rand((B, c["ni"]), generator=g) * 2 - 1,)
     if k in ("cnn", "resnet"):
         if c.get("depth"):
-            return (torch.rand((B, c["inc"], c["depth"], c["inh"], c["inh"]), generator=g),)
-        return (torch.rand((B, c["inc"], c["inh"], c["inh"]), generator=g),)
+            return (torch.rand((B, c["inc"], c["depth"], c["inh"], c.get("inw", c["inh"])), generator=g),)
+        return (torch.rand((B, c["inc"], c["inh"], c.get("inw", c["inh"])), generator=g),)
     if k == "lstm":
         return (torch.rand((B, 3, c["ni"]), generator=g) * 2 - 1,)
     if k == "multi":
@@ -813,7 +819,12 @@ def walk(desc: dict, depth: int, seed: int, mode: str) -> dict:
     choose = explicit_args(rnd)
     for i in range(depth):
         cf = mode == "cm" or (mode == "mix" and rnd.random() < 0.5)
-        ev, m = do_step(m, c, (lambda adv: rnd.choice(adv)), kwargs=choose, seed=seed * 1000 + i, clone_first=cf)
+        prefer = desc.get("prefer")
+
+        def pick(adv):
+            fav = [x for x in adv if prefer and _leaf_name(x) in prefer]
+            return rnd.choice(fav) if (fav and rnd.random() < 0.7) else rnd.choice(adv)
+        ev, m = do_step(m, c, pick, kwargs=choose, seed=seed * 1000 + i, clone_first=cf)
         ev["after_latent"] = bool(stale and not ev["cloned"])
         stale = (stale and not ev["cloned"]) or _leaf_name(ev["m"]) in ("add_latent_node", "remove_latent_node")
         events.append(ev)
@@ -884,6 +895,8 @@ def walk_descs(quick: bool) -> List[dict]:
            dict(what="multi", obs="dictseq", kw=dict(recurrent=True), tag="lstm"),
            dict(what="multi", obs="dict", kw=dict(vector_space_mlp=True), names=["vision", "vmlp"], tag="named"),
            # non-default constructor switches that every rebuild has to carry along
+           dict(what="cnnrect", hw=(48, 8), tag="tall", prefer=["change_kernel", "add_layer"]),
+           dict(what="cnnrect", hw=(8, 40), tag="wide", prefer=["change_kernel", "add_layer"]),
            dict(what="mlp", kw=dict(activation="GELU", new_gelu=True), tag="newgelu"),
            dict(what="mlp", kw=dict(activation="Tanh", output_activation="Sigmoid", layer_norm=False, output_vanish=False, init_layers=False), tag="switches")]
     for cls in ("QNetwork", "RainbowQNetwork", "ContinuousQNetwork", "ValueNetwork", "DeterministicActor", "StochasticActor"):
